@@ -86,7 +86,7 @@ def adjacency_symmetry(ctx: Ctx, f, search, oid: str, build_scope=None):
 def run(ctx: Ctx):
     f = ctx.func("flow", "max_flow")
     bfs = ctx.func("flow", "max_flow.bfs")
-    adjacency_symmetry(ctx, f, bfs, "C08-O1")
+    ctx.step(adjacency_symmetry, f, bfs, "C08-O1")
 
     # O2 residual formula agreement
     it = [n for n in own_nodes(bfs.node) if isinstance(n, ast.For) and isinstance(n.iter, ast.Subscript)][0]
